@@ -111,6 +111,8 @@ func relation(f tuple, a addr, forRead bool) string {
 		switch {
 		case hasPat(a.Task) && fakesql.Like(f.Task, a.Task+"%"):
 			return "pattern-char-task-match"
+		case strings.HasPrefix(f.Task, a.Task+"/") || strings.HasPrefix(a.Task, f.Task+"/"):
+			return "task-id-nested-path" // "t1/x" under "t1": apart from a mere string prefix ("t10")
 		case prefixRelated(f.Task, a.Task):
 			return "prefix-related-task"
 		}
